@@ -269,6 +269,17 @@ def gen(rng, n_each):
             qb = rand_frac(rng, 0, 200)
         cases.append({"kind": "cmp", "op": rng.choice(ops), "a": [str(qa), ua], "b": [str(qb), ub],
                       "alt": [[rng.choice(UNITS), rng.choice(UNITS)] for _ in range(2)]})
+    for k in range(max(12, n_each // 8)):
+        # targeted: a duration written in weeks / months / years against one a few seconds (or a fraction of a second) off, in seconds,
+        # minutes or hours - in both operand orders, every comparison operator in turn
+        ua = [5, 6, 7][k % 3]; ub = [1, 2, 3][(k // 3) % 3]
+        qa = Fraction(rng.choice([0, 1, 1, 2, 5]))
+        off = rng.choice([-1, 1]) * Fraction(rng.choice([1, 3, 10]), rng.choice([1, 1, 2, 10]))          # seconds
+        qb = (qa * FACT[ua] + off) / FACT[ub]
+        a, b = [str(qa), ua], [str(qb), ub]
+        if k % 2:
+            a, b = b, a
+        cases.append({"kind": "cmp", "op": ops[k % 6], "a": a, "b": b, "alt": [[rng.choice(UNITS), rng.choice(UNITS)] for _ in range(2)]})
     for _ in range(n_each):
         cases.append({"kind": rng.choice(["add", "sub"]), "a": [str(rand_frac(rng, -50, 200)), rng.choice(UNITS)],
                       "b": [str(rand_frac(rng, -50, 200)), rng.choice(UNITS)], "w": rng.choice(UNITS)})
